@@ -357,7 +357,6 @@ func TestC04_Errors(t *testing.T) {
 	})
 }
 
-
 // TestC04_LargeLists: the aggregation functions on lists whose length crosses the usual internal batch sizes (64, 128,
 // 256): the results still equal the oracle's sums (one scalar sum, one multiplication per group).
 func TestC04_LargeLists(t *testing.T) {
